@@ -1301,3 +1301,8 @@ package mail
 //@ func mail.Msg.Reset ()
 //@   requires[C02:inv] m != nil
 //@   ensures[C02:inv] ghsafe(m)
+// C07: with implicit TLS nothing is sent in clear - the connection the SMTP client is created on comes from the
+// TLS dialer. (Open finding: with WithDialContextFunc the caller's dial function is used as it is, and useSSL
+// switches STARTTLS off.)
+//@ at mail.Client.DialToSMTPClientWithContext smtp.NewClient#* before assert[C07:implicit-tls-means-tls-dialer] (c.useSSL && c.dialContextFunc == nil) ==> isEncrypted
+//@ at mail.Client.DialToSMTPClientWithContext smtp.NewClient#* before assert[C07:implicit-tls-means-tls-transport] (c.useSSL && c.dialContextFunc != nil) ==> isEncrypted
